@@ -25,6 +25,8 @@ package main
 import (
 	"bytes"
 	"fmt"
+	"io"
+	"log"
 	"net/http"
 	"net/http/httptest"
 	"net/url"
@@ -507,7 +509,7 @@ func (d *drv) recFile(sb *sandbox, counters map[string]int, g, username, ext str
 	if err != nil {
 		t.Note("recfile-error")
 		t.Checked("C19.rec_file")
-		if !strings.Contains(username, "\x00") && len(username) < 100 {
+		if !strings.Contains(username, "\x00") && len(specSanitise(username)) < 200 {
 			t.Fail("C19", "rec_file", fmt.Sprintf("openDiskFile(%q, %q): %v", username, ext, err))
 		}
 		return
@@ -564,7 +566,7 @@ func (d *drv) deleteAction(sb *sandbox, filename string) {
 	after := sb.snapshot()
 	_, removed := diff(before, after)
 	created := false
-	if _, ok := before[filepath.Join(sb.rec, g, filename)]; ok && !strings.Contains(filename, "/") && filename != "" {
+	if isDir, ok := before[filepath.Join(sb.rec, g, filename)]; ok && !isDir && !strings.Contains(filename, "/") && filename != "" {
 		created = true
 	}
 	if w.Code == http.StatusBadRequest {
@@ -666,6 +668,7 @@ func randomString(r *tr.Rand) string {
 }
 
 func runPaths(t *tr.Trace, r *tr.Rand, n int) {
+	log.SetOutput(io.Discard) // the handlers log every OS error
 	d := &drv{t: t, r: r}
 	maxLen := 5
 	if n >= 5000 {
